@@ -342,6 +342,7 @@ def run(c, prog):
     from sa import db as _dbm
     _C16.rule_sername(core.Alias(c, "C06"), prog, _dbm.Database())     # two canonical properties written under one name lose a value
     rule_desc(c, prog)
+    _C15.rule_one(core.Alias(c, "C06"), prog, _dbm.Database())     # canonical + alias on one instance: XML keeps the alias's value, binary the canonical one
     rule_name(c, prog)
     rule_conv(c, prog)
     common.rule_writer_total(core.Alias(c, "C06"), prog, "C02.total", "xml")     # the two encodings can only be equivalent where both exist
